@@ -120,7 +120,7 @@ def digest_obj(obj):
 # replay / evidence / known findings
 # ---------------------------------------------------------------------------
 def write_replay(prop, seed, index, payload):
-    d = os.path.join(VERIF, "replays")
+    d = os.environ.get("VERIF_REPLAY_DIR") or os.path.join(VERIF, "replays")
     os.makedirs(d, exist_ok=True)
     path = os.path.join(d, f"{prop}-{seed}-{index}.json")
     payload = dict(payload)
@@ -133,7 +133,7 @@ def write_replay(prop, seed, index, payload):
 
 
 def write_evidence(prop, tier, seed, coverage, wall_s, violations, assumptions):
-    d = os.path.join(VERIF, "evidence")
+    d = os.environ.get("VERIF_EVIDENCE_DIR") or os.path.join(VERIF, "evidence")
     os.makedirs(d, exist_ok=True)
     ev = {
         "property_id": prop,
@@ -236,6 +236,58 @@ def run_workers(engine, seed, tier, budget_s, max_runs, extra_args=(), workers=N
             except Exception:  # noqa: BLE001
                 pass
             p.wait()
+
+
+def run_isolated(fn, args=(), timeout=600.0):
+    """Runs fn(*args) in a forked child and returns its JSON-serialisable result.
+    Every simulated run starts from the same (warmed-up, otherwise pristine) process image, so no run can
+    depend on what earlier runs left behind in module- or class-level state, and a hung run can be killed."""
+    import select
+    import signal
+    import traceback
+
+    r, w = os.pipe()
+    sys.stdout.flush() if hasattr(sys.stdout, "flush") and sys.stdout is not None else None
+    pid = os.fork()
+    if pid == 0:
+        rc = 0
+        try:
+            os.close(r)
+            res = fn(*args)
+            data = json.dumps(res, default=repr).encode()
+            while data:
+                n = os.write(w, data)
+                data = data[n:]
+        except BaseException:  # noqa: BLE001
+            rc = 3
+            try:
+                os.write(2, traceback.format_exc().encode())
+            except Exception:  # noqa: BLE001
+                pass
+        finally:
+            os._exit(rc)
+    os.close(w)
+    chunks = []
+    t_end = time.monotonic() + timeout
+    try:
+        while True:
+            left = t_end - time.monotonic()
+            if left <= 0:
+                os.kill(pid, signal.SIGKILL)
+                os.waitpid(pid, 0)
+                raise HarnessError(f"isolated run exceeded {timeout:.0f}s wall (killed)")
+            rl, _, _ = select.select([r], [], [], min(left, 5.0))
+            if rl:
+                c = os.read(r, 1 << 16)
+                if not c:
+                    break
+                chunks.append(c)
+    finally:
+        os.close(r)
+    _, status = os.waitpid(pid, 0)
+    if status != 0:
+        raise HarnessError(f"isolated run died with status {status}")
+    return json.loads(b"".join(chunks))
 
 
 class WorkerOut:
